@@ -2,55 +2,11 @@ package main
 
 import (
 	"fmt"
-	"math/rand"
-	"time"
 
-	sdkmath "cosmossdk.io/math"
-	abci "github.com/cometbft/cometbft/abci/types"
-
-	"verif/ops"
-	"verif/sim"
+	dogfoodtypes "github.com/ExocoreNetwork/exocore/x/dogfood/types"
 )
 
 func main() {
-	r := rand.New(rand.NewSource(5))
-	cfg := sim.DefaultConfig(3, []int64{100, 200, 300})
-	c, _ := sim.NewChain(cfg)
-	w := ops.NewWorld(c, r)
-	w.Dt = 5 * time.Second
-	w.Start()
-	ex := &ops.Oper{Acct: cfg.Accounts[5]}
-	w.Opers = append(w.Opers, ex)
-	st := w.RegisterOperator(ex)
-	fmt.Println("register", st.Ack, st.Err)
-	s := w.AddStaker(101, sim.NewAccount("x").Eth.Bytes())
-	st = w.Deposit(s, w.Assets[0], sdkmath.NewInt(5000))
-	fmt.Println("deposit", st.Ack, st.Err)
-	st = w.Delegate(s, w.Assets[0], ex, sdkmath.NewInt(5000))
-	fmt.Println("delegate", st.Ack, st.Err)
-	for k := 0; k < 3; k++ {
-		w.Advance(w.Dt)
-	}
-	v := c.ValSet.Validators[1]
-	c.NextEvidence = append(c.NextEvidence, abci.Misbehavior{Type: abci.MisbehaviorType_DUPLICATE_VOTE, Validator: abci.Validator{Address: v.Address, Power: v.VotingPower},
-		Height: c.Height() - 1, Time: c.Header.Time.Add(-w.Dt), TotalVotingPower: c.ValSet.TotalVotingPower()})
-	_, perr := c.App.SlashingKeeper.GetPubkey(c.Ctx(), v.Address.Bytes())
-	fmt.Println("getpubkey err:", perr, "has signing info:", c.App.SlashingKeeper.HasValidatorSigningInfo(c.Ctx(), v.Address.Bytes()))
-	val := c.App.StakingKeeper.ValidatorByConsAddr(c.Ctx(), v.Address.Bytes())
-	fmt.Println("validator nil?", val == nil)
-	if val != nil {
-		fmt.Println(" unbonded?", val.IsUnbonded(), "jailed", val.IsJailed(), "operator", val.GetOperator())
-	}
-	cp := c.Ctx().ConsensusParams()
-	fmt.Println("consensus params evidence:", cp != nil && cp.Evidence != nil)
-	w.EndBlock()
-	st = w.NextBlock(w.Dt)
-	fmt.Println("begin with evidence", st.Ack, st.Panic)
-	n := 0
-	for k := range w.Last.Raw["operator"] {
-		if k[0] == 5 {
-			n++
-		}
-	}
-	fmt.Println("slash infos", n, "jailed?", w.Last.Op.Opted)
+	fmt.Println("validator", dogfoodtypes.ExocoreValidatorBytePrefix, "optouts", dogfoodtypes.OptOutsToFinishBytePrefix, "optoutepoch", dogfoodtypes.OperatorOptOutFinishEpochBytePrefix,
+		"prune", dogfoodtypes.ConsensusAddrsToPruneBytePrefix, "maturity", dogfoodtypes.UnbondingReleaseMaturityBytePrefix, "hist", dogfoodtypes.HistoricalInfoBytePrefix)
 }
